@@ -1,7 +1,7 @@
 """C08 - bulk numeric bodies: the clauses of the property that live in repe's own source."""
 from analysis.affine import Affine, Form
 from analysis.flow import term_pt
-from analysis.guards import facts_at
+from analysis.guards import facts_at, field_writes
 from analysis.mir import callee_matches, op_place
 from analysis.sym import Sym, render, is_call, const_val, walk
 from rules.common import texts, value_rows, render_n, blocks_assigning_variant
@@ -78,6 +78,19 @@ def run(facts, R):
         sz2 = [(i, t) for i, t in sb.calls() if callee_matches(t["callee"], sizefn)]
         ws = [(i, t) for i, t in sb.calls() if callee_matches(t["callee"], "io::write_message_streaming")]
         ok = len(sz2) == 1 and len(ws) == 1 and render_n(ss.op(sz2[0][1]["args"][0])) == "arg4"
+        if not ws and getattr(sb, "changed", False):
+            # the frame is written out in place (no write_message_streaming): the declared body length is size(slice) and the one
+            # beve writer in the function is the paired writer, on the same slice, into the caller's writer
+            wr3 = [(i, t) for i, t in sb.calls() if t["callee"]["path"].startswith("beve::") and not callee_matches(t["callee"], sizefn)]
+            bl = [ss.rvalue(w["rv"]) for w in field_writes(facts, "header::Header", "body_length", include_borrows=False) if w["body"] is sb and w["kind"] == "store"]
+            ok = len(sz2) == 1 and render_n(ss.op(sz2[0][1]["args"][0])) == "arg4" and len(wr3) == 1 and callee_matches(wr3[0][1]["callee"], writefn) \
+                and render_n(ss.op(wr3[0][1]["args"][1])) == "arg4" and render_n(ss.op(wr3[0][1]["args"][0])) == "arg1" \
+                and len(bl) == 1 and is_call(bl[0], sizefn.rsplit("::", 1)[-1]) and bl[0][3] == sz2[0][0]
+            R.check(ok, "size-writer-pairs", streamer, "%s streaming writer uses the same pair on the same slice" % kind,
+                    "the streaming writer frames in place but does not declare size(slice) and write writer(w, slice)", sb.span,
+                    "header.body_length = %s(slice); body = %s(w, slice)" % (sizefn.split("::")[1], writefn.split("::")[1]))
+            _format_is_beve(facts, R, sb, ss, beve_code, "header::Header", "body_format")
+            continue
         if ok:
             a = [ss.op(x) for x in ws[0][1]["args"]]
             blen = a[3]
@@ -146,6 +159,28 @@ def run(facts, R):
                     n_use += 1
                     R.check(t["callee"]["name"] in ("as_slice",), "borrow-then-own", b.path, "SliceInput used via as_slice", "SliceInput passed to %s" % t["callee"]["path"], t.get("span"))
     R.floor("borrow-then-own", n_use, 2, "uses of SliceInput values")
+
+    # ---------------- decode-paths-agree: a bulk route is reached through the borrowing `handle_view` (TCP servers, WebSocket
+    # inline) or the owned `handle` (middleware-wrapped routes, WebSocket off-reader).  "Each decoder reads the other encoder's
+    # output ... wherever the frame lands" needs both paths of a slice handler to accept the same wire forms and answer alike:
+    # C07's handler-twins comparison, restricted to the slice handlers (shared)
+    from analysis import report as _report7
+    from rules import C07 as _c07
+    sub7 = _report7.Report(R.prop, R.tier, R.config)
+    try:
+        _c07.run(facts, sub7)
+    except Exception as e:
+        sub7.bad("anchor-resolution", "<crate>", "shared-C07-rules", "the shared handler-twins rules could not run: %s" % e)
+    n_tw = 0
+    for inst in sub7.instances:
+        if inst["rule"] == "handler-twins" and "Slice" in str(inst.get("fn")) + str(inst.get("what")) and inst["verdict"] == "holds":
+            R.instances.append(inst)
+            n_tw += 1
+    for v in sub7.violations:
+        if (v["rule"] == "handler-twins" and "Slice" in str(v.get("fn")) + str(v.get("what"))) or v["rule"] == "anchor-resolution":
+            R.bad("decode-paths-agree", v["fn"], v["what"], v["msg"], v.get("site"), v.get("path"))
+            n_tw += 1
+    R.floor("decode-paths-agree", n_tw, 2, "owned/borrowed comparisons of the slice handlers")
 
     # ---------------- format-guard -----------------------------------------------------------------------------
     helper_sites = {}
